@@ -304,7 +304,7 @@ func driverMain(args []string) int {
 		if f.Predicate != "" {
 			skip = append(skip, f.Predicate)
 		}
-		r := runChild(90*time.Second, bin, "replay-child", filepath.Join(verifDir, f.Replay), filepath.Join(tmpDir, "kf.progress"))
+		r := runChild(150*time.Second, bin, "replay-child", filepath.Join(verifDir, f.Replay), filepath.Join(tmpDir, "kf.progress"))
 		k, _ := crashKind(r)
 		if r.exit == 1 || k != "" {
 			fmt.Printf("KNOWN-FINDING: property=%s %s (%s)\n", prop, f.What, f.ID)
@@ -430,7 +430,7 @@ func driverMain(args []string) int {
 			if w >= nw {
 				cbin = selfPath(true)
 			}
-			r := runChild(90*time.Second, cbin, "replay-child", o.crash.File, filepath.Join(tmpDir, "confirm.progress"))
+			r := runChild(150*time.Second, cbin, "replay-child", o.crash.File, filepath.Join(tmpDir, "confirm.progress"))
 			k, _ := crashKind(r)
 			batchDependent := false
 			if k == "" && r.exit != 1 && o.batchStride > 0 && o.batchFirst < o.crash.Run {
@@ -448,7 +448,7 @@ func driverMain(args []string) int {
 						// process-global state such as sync.Pool is not fully owned by
 						// the simulator (random drops under -race): up to 3 attempts
 						for try := 0; try < 3 && !batchDependent; try++ {
-							r = runChild(180*time.Second, cbin, "replay-child", o.crash.File, filepath.Join(tmpDir, "confirm.progress"))
+							r = runChild(240*time.Second, cbin, "replay-child", o.crash.File, filepath.Join(tmpDir, "confirm.progress"))
 							k, _ = crashKind(r)
 							batchDependent = k != "" || r.exit == 1
 						}
@@ -626,7 +626,7 @@ func replayDriver(args []string) int {
 	}
 	tmp := filepath.Join(verifDir, ".build", fmt.Sprintf("replay-%d.progress", os.Getpid()))
 	defer os.Remove(tmp)
-	r := runChild(90*time.Second, selfPath(cfg.Race || rf.Race), "replay-child", path, tmp)
+	r := runChild(150*time.Second, selfPath(cfg.Race || rf.Race), "replay-child", path, tmp)
 	os.Stdout.Write(r.stdout)
 	if r.exit == 1 {
 		fmt.Printf("VIOLATION property=%s replay=%s\n", rf.Property, path)
@@ -669,7 +669,7 @@ func shrinkCrash(bin string, wv *workerViolation, tmpDir string) string {
 		if traceOut != "" {
 			args = append(args, traceOut)
 		}
-		r := runChild(30*time.Second, bin, args...)
+		r := runChild(45*time.Second, bin, args...)
 		k, _ := crashKind(r)
 		return k == kind
 	}
